@@ -8,6 +8,19 @@ use std::sync::Mutex;
 pub enum TraceEvent {
     /// free-form record: (site, a, b, c)
     Raw(&'static str, u64, u64, u64),
+    /// A cycle head finished one iteration of its body (`try_complete_cycle_head`).
+    CycleHead {
+        ingredient: u32,
+        key: u64,
+        iteration: u32,
+        /// completed as part of an enclosing cycle (the outer head drives the iteration)
+        nested: bool,
+        /// this was the outermost head and the whole cycle was finalized now
+        finalized: bool,
+        value_converged: bool,
+        /// the flattened input edges equal those of the head's previous provisional memo
+        deps_stable: bool,
+    },
 }
 
 static SINK: Mutex<Option<Vec<TraceEvent>>> = Mutex::new(None);
